@@ -46,7 +46,7 @@ func run(e *harness.Env) {
 		"the same text inside the bottom band of every page at positions 13 pt apart}; (A) fragment sets x page size {Letter, A4, mixed} x fragment order {top-down, bottom-up} through Detect + FilterFragments on every page (exact attribution by fragment id), the same sequence a second time on the same page data, and the per-page loop Analyzer.AnalyzeWithHeaderFooterFiltering(pages, i); after every call the caller's fragment slices must equal a deep copy taken before; " +
 		"(B) PDFs x page size {Letter, mixed} x requested pages {all, each single page, each pair} x {ExcludeHeaders, ExcludeFooters, ExcludeHeadersAndFooters} x {Text, Lines, Paragraphs, ReadingOrder, Blocks, Analyze, Document, ToMarkdown}, " +
 		"filtered vs unfiltered result of the same call, plus selection independence: a removable-but-not-required line that the all-pages result removes (keeps) everywhere is removed (kept) in every partial selection (quick prunes (B): edge distance 80 only, top page numbers in 2 styles, no pairs of 4-page documents, single-side modes and mixed sizes on 3 APIs); " +
-		"(C) DOCX/ODT header part x footer part x 11 near-miss/equal body paragraphs x position x mode x {Text, ToMarkdown}, PPTX 1..3 slides x all 16 subsets of {ftr, sldNum, dt, hdr} placeholders x body text equal to footer / slide number x mode x {Text, ToMarkdown}. " +
+		"(G) per-page fragment granularity {all word-level, all character-level, page 1 character-level among line-level pages and the reverse, page 1 word-level among line-level pages and the reverse} x P in 2..3 x header {same, same+sub, different} x 3 page-number settings x body {unique, repeated line inside the top / bottom band of page 2 only}, as fragment sets and as PDFs (clause 2 read per fragment on such pages); (C) DOCX/ODT header part x footer part x 11 near-miss/equal body paragraphs x position x mode x {Text, ToMarkdown}, PPTX 1..3 slides x all 16 subsets of {ftr, sldNum, dt, hdr} placeholders x body text equal to footer / slide number x mode x {Text, ToMarkdown}. " +
 		"distinct = descriptors; non-trivial = documents of >= 2 pages with a header, a page number or a non-plain body variant (office: with a header/footer part or placeholder)"
 	e.Assumptions = []string{
 		"internal/gen/pdfw writes one text fragment per logical line at the stated position (Helvetica 12 pt; Letter 612x792 or A4-high 612x842 pages)",
@@ -59,6 +59,7 @@ func run(e *harness.Env) {
 	partA(e)
 	partC(e)
 	partB(e)
+	partG(e)
 }
 
 // inQuick prunes part (B) for the quick tier (part (A) only drops the uniform A4 size): near-band distance 80 only, no page
@@ -118,8 +119,20 @@ func nontrivial(P int, hdr string, pn pnKind, body bodyKind) bool {
 
 // ---- (A) fragment sets -------------------------------------------------------------------------------
 
-func fragOf(l lline) text.TextFragment {
-	return text.TextFragment{Text: l.text, X: l.x, Y: l.y, Width: 5.5 * float64(len(l.text)), Height: l.h, FontSize: l.h, FontName: l.id}
+// fragsOf builds the text fragments of a line by hand: one per piece, tagged with the line id in FontName.
+func fragsOf(d *ldoc, l lline) []text.TextFragment {
+	var o []text.TextFragment
+	for i, pc := range d.pieces(l) {
+		o = append(o, text.TextFragment{Text: pc.text, X: pc.x, Y: l.y, Width: textWidth(pc.text, l.h), Height: l.h, FontSize: l.h, FontName: fmt.Sprintf("%s|%d", l.id, i)})
+	}
+	return o
+}
+
+func lineID(f text.TextFragment) string {
+	if i := strings.LastIndex(f.FontName, "|"); i >= 0 {
+		return f.FontName[:i]
+	}
+	return f.FontName
 }
 
 // inSpace says whether (P, hdr, pn, body, size) belongs to the enumerated product: the general kinds run for
@@ -217,7 +230,7 @@ func checkFragments(d *ldoc, order string) (sig, detail, outcome string) {
 				l = ls[len(ls)-1-i]
 			}
 			byID[l.id] = l
-			pf.Fragments = append(pf.Fragments, fragOf(l))
+			pf.Fragments = append(pf.Fragments, fragsOf(d, l)...)
 		}
 		pages[p] = pf
 	}
@@ -225,8 +238,10 @@ func checkFragments(d *ldoc, order string) (sig, detail, outcome string) {
 	removed, keptMay := map[string]bool{}, map[string]bool{}
 	anyMay := false
 	for _, l := range d.all() {
-		if d.mayDelete(l) {
-			anyMay = true
+		for _, pc := range d.pieces(l) {
+			if !blank(pc.text) && d.mayDeletePiece(l, pc) {
+				anyMay = true
+			}
 		}
 	}
 	bad := map[string]map[string]bool{} // signature stem -> classes
@@ -252,7 +267,6 @@ func checkFragments(d *ldoc, order string) (sig, detail, outcome string) {
 			}
 			// 1. subsequence of unmodified fragments
 			j := 0
-			kept := map[string]bool{}
 			for _, f := range outCopy {
 				for j < len(in) && in[j] != f {
 					j++
@@ -260,25 +274,45 @@ func checkFragments(d *ldoc, order string) (sig, detail, outcome string) {
 				if j == len(in) {
 					return "not-subsequence", fmt.Sprintf("round %d page %d: filtered fragment %q (%s) is not the next unmodified input fragment\ninput  %s\noutput %s", round, p+1, f.Text, f.FontName, fragList(in), fragList(out)), ""
 				}
-				kept[f.FontName] = true
 				j++
 			}
-			for _, f := range in {
-				l := byID[f.FontName]
-				may, must := d.mayDelete(l), d.mustDelete(l, "both")
-				switch {
-				case !kept[l.id] && !may:
-					stem := d.whyNot(l)
-					if !anyMay {
-						stem = "changed-without-repetition"
+			keptIdx := map[string]bool{}
+			for _, f := range outCopy {
+				keptIdx[f.FontName] = true
+			}
+			for _, l := range d.pages[p] {
+				must := d.mustDelete(l, "both")
+				nonBlank, deleted, lineMay := 0, 0, true
+				for i, pc := range d.pieces(l) {
+					if blank(pc.text) {
+						continue // a space glyph carries no text: not judged
 					}
-					flag(stem, l.class, fmt.Sprintf("round %d page %d: %q at y=%.1f (band side %q, repeated on another page=%v, page-number pattern=%v) was deleted", round, p+1, l.text, l.y, d.side(l), d.repeated(l), isPagePattern(l.text)))
-				case kept[l.id] && must:
-					flag(keptStem, l.class, mustName(l.class)+": "+fmt.Sprintf("round %d page %d: %q at y=%.1f is still present", round, p+1, l.text, l.y))
-				case !kept[l.id]:
-					removed[l.class] = true
-				case may:
-					keptMay[l.class] = true
+					nonBlank++
+					pm := d.mayDeletePiece(l, pc)
+					if !pm {
+						lineMay = false
+					}
+					if keptIdx[fmt.Sprintf("%s|%d", l.id, i)] {
+						continue
+					}
+					deleted++
+					if !pm {
+						stem := d.whyNot(l)
+						if !anyMay {
+							stem = "changed-without-repetition"
+						}
+						flag(stem, d.label(l), fmt.Sprintf("round %d page %d: fragment %q of %q at y=%.1f (band side %q, line repeated on another page=%v, fragment repeated=%v, page-number pattern=%v) was deleted", round, p+1, pc.text, l.text, l.y, d.side(l), d.repeated(l), d.pieceRepeated(l, pc), isPagePattern(pc.text)))
+					}
+				}
+				switch {
+				case must && deleted < nonBlank:
+					flag(keptStem, d.label(l), mustName(l.class)+": "+fmt.Sprintf("round %d page %d: %q at y=%.1f is still present (%d of %d fragments)", round, p+1, l.text, l.y, nonBlank-deleted, nonBlank))
+				case deleted == nonBlank:
+					removed[d.label(l)] = true
+				case deleted > 0:
+					removed[d.label(l)+"(some fragments)"] = true
+				case lineMay:
+					keptMay[d.label(l)] = true
 				}
 			}
 		}
@@ -327,7 +361,7 @@ const keptStem = "kept-repeated-marginal-line"
 // badSig builds one stable signature from the violated clauses: the first stem in a fixed priority order plus the
 // classes of the offending lines (classes are a closed alphabet, not varying data).
 func badSig(bad map[string]map[string]bool) string {
-	for _, stem := range []string{"changed-without-repetition", "deleted-outside-band", "deleted-unrepeated-marginal", "deleted-unrepeated-line", keptStem, "selection-dependent"} {
+	for _, stem := range []string{"changed-without-repetition", "deleted-outside-band", "deleted-unrepeated-marginal", "deleted-unrepeated-line", "line-partially-deleted", keptStem, "selection-dependent"} {
 		if c, ok := bad[stem]; ok {
 			if stem == keptStem {
 				return stem
@@ -479,7 +513,9 @@ func pdfOf(d *ldoc) []byte {
 			pg.MediaBox = [4]float64{0, 0, d.PW, d.PHs[p]}
 		}
 		for _, l := range ls {
-			pg.Lines = append(pg.Lines, pdfw.Line{Font: pdfw.Type1WinAnsi, Text: l.text, X: l.x, Y: l.y, Size: l.h})
+			for _, pc := range d.pieces(l) {
+				pg.Lines = append(pg.Lines, pdfw.Line{Font: pdfw.Type1WinAnsi, Text: pc.text, X: pc.x, Y: l.y, Size: l.h})
+			}
 		}
 		doc.Pages = append(doc.Pages, pg)
 	}
@@ -714,6 +750,15 @@ func judgeTokens(d *ldoc, mode string, req map[int]bool, U, F []string, ref func
 	// The order verdict is reported AFTER the count clauses 2-4: when a wrong set of lines survives, the layout
 	// analysis may also order the survivors differently, and the cause (which lines) is the stable signature.
 	notSub := !orderFree && !isSubseq(chars(F), chars(U))
+	for p := range req {
+		if d.granOf(p) != 'L' {
+			// word- or character-level page: clause 2 is read per fragment, so a line may lose some of its words
+			if notSub {
+				return "not-subsequence", "the filtered output (white space ignored) is not a subsequence of the unfiltered one\n" + show(), ""
+			}
+			return checkTokens(d, mode, req, U, F, show)
+		}
+	}
 	uLines, okU, _ := segment(U, keys)
 	fLines, okF, at := segment(F, keys)
 	if !okU || !okF {
@@ -723,7 +768,7 @@ func judgeTokens(d *ldoc, mode string, req map[int]bool, U, F []string, ref func
 		if !okU || (!orderFree && !isSubseq(F, U)) {
 			// The API itself rewrites some line (ToMarkdown turns a leading number into list markup, ...): that is not
 			// this property's business. Fall back to the token-level form of clauses 2-4.
-			return checkTokens(d, exp, keys, U, F, anyMay, show)
+			return checkTokens(d, mode, req, U, F, show)
 		}
 		return "line-partially-deleted", fmt.Sprintf("the filtered output is not the unfiltered output minus whole lines (token %d)\n%s", at, show()), ""
 	}
@@ -878,7 +923,7 @@ func judgeTokens(d *ldoc, mode string, req map[int]bool, U, F []string, ref func
 // sequence of the document's lines. For every token of the document's lines: the drop of its count is at most the
 // number of removable line instances that contain it and, when the unfiltered output holds all its instances, at
 // least the number of must-delete instances that contain it.
-func checkTokens(d *ldoc, exp map[string]*expect, keys [][]string, U, F []string, anyMay bool, show func() string) (sig, detail, outcome string) {
+func checkTokens(d *ldoc, mode string, req map[int]bool, U, F []string, show func() string) (sig, detail, outcome string) {
 	type owner struct {
 		n, may, must          int
 		why, class, mustClass string
@@ -886,26 +931,34 @@ func checkTokens(d *ldoc, exp map[string]*expect, keys [][]string, U, F []string
 	}
 	own := map[string]*owner{}
 	var order []string
-	for _, key := range keys {
-		x := exp[strings.Join(key, " ")]
-		for _, t := range key {
+	anyMay := false
+	for _, l := range d.all() {
+		if !req[l.page] {
+			continue
+		}
+		must := d.mustDelete(l, mode)
+		for i, t := range strings.Fields(l.text) {
 			o := own[t]
 			if o == nil {
 				o = &owner{}
 				own[t] = o
 				order = append(order, t)
 			}
-			o.n += x.n
-			o.may += x.may
-			o.must += x.must
-			if x.may < x.n {
-				o.why, o.class = x.why, x.class
+			o.n++
+			if d.wordMay(l)[i] {
+				o.may++
+				o.mayClass = d.label(l)
+				anyMay = true
+			} else {
+				w := d.whyNot(l)
+				if o.why != "" && o.why != w {
+					w = "deleted-unrepeated-line"
+				}
+				o.why, o.class = w, d.label(l)
 			}
-			if x.may > 0 {
-				o.mayClass = x.mayClassOr()
-			}
-			if x.must > 0 {
-				o.mustClass = x.mustClass
+			if must {
+				o.must++
+				o.mustClass = l.class
 			}
 		}
 	}
@@ -947,4 +1000,89 @@ func checkTokens(d *ldoc, exp map[string]*expect, keys [][]string, U, F []string
 		return badSig(bad), strings.Join(notes, "\n") + "\n" + show(), ""
 	}
 	return "", "", "pdf-token-level:removed=" + joinSorted(removed)
+}
+
+// ---- (G) per-page fragment granularity -------------------------------------------------------------
+//
+// The same documents with word-level or character-level fragments on some or all pages (a character-level page has
+// one fragment per glyph, spaces included; a word-level page one fragment per word with its trailing space), crossed
+// with the kinds that put unique text inside the band. Run as fragment sets (like part A) and as PDFs (like part B).
+func partG(e *harness.Env) {
+	dir := harness.Scratch()
+	defer os.RemoveAll(dir)
+	path := filepath.Join(dir, "gran.pdf")
+	pns := []pnKind{{"none", "-", false}, {"n", "bottom", false}, {"Page_n", "top", false}}
+	bodies := []bodyKind{{"unique", 0}, {"rep-band-top", 0}, {"rep-band-bottom", 0}}
+	quickAPIs := map[string]bool{"Text": true, "Analyze": true, "Document": true}
+	for P := 2; P <= 3; P++ {
+		for _, gran := range granKinds {
+			for _, hdr := range []string{"same", "same+sub", "different"} {
+				for _, pn := range pns {
+					for _, body := range bodies {
+						for _, order := range []string{"top-down", "bottom-up"} {
+							if !e.Thorough() && order != "top-down" {
+								continue
+							}
+							desc := harness.D("part", "frag", "P", P, "hdr", hdr, "pn", pn.style, "pnpos", pn.pos, "body", body.name, "off", body.off, "size", "letter", "order", order, "gran", gran)
+							if !e.Own(desc) {
+								continue
+							}
+							e.Begin(desc)
+							d := buildDoc(P, hdr, pn, body, "letter")
+							d.setGran(gran)
+							var sig, det, out string
+							psig, pdet := harness.Guard(func() { sig, det, out = checkFragments(d, order) })
+							if psig != "" {
+								sig, det = psig, pdet
+							}
+							if sig != "" {
+								e.Fail(desc, sig, det, nil)
+								continue
+							}
+							e.Pass(desc, true, "frag-gran:"+out)
+						}
+						var d *ldoc
+						var data []byte
+						written := false
+						refCache = map[string]*refRun{}
+						for _, sub := range subsets(P) {
+							for _, mode := range []string{"headers", "footers", "both"} {
+								for _, api := range apis {
+									if !e.Thorough() && (mode != "both" || !quickAPIs[api.name] || len(sub) == 2) {
+										continue // quick: both sides, three APIs, all pages and single pages
+									}
+									desc := harness.D("part", "pdf", "P", P, "hdr", hdr, "pn", pn.style, "pnpos", pn.pos, "body", body.name, "off", body.off, "size", "letter", "pages", subsetName(sub), "mode", mode, "api", api.name, "gran", gran)
+									if !e.Own(desc) {
+										continue
+									}
+									e.Begin(desc)
+									if d == nil {
+										d = buildDoc(P, hdr, pn, body, "letter")
+										d.setGran(gran)
+										data = pdfOf(d)
+									}
+									if !written {
+										if err := os.WriteFile(path, data, 0o644); err != nil {
+											panic(err)
+										}
+										written = true
+									}
+									var sig, det, out string
+									psig, pdet := harness.Guard(func() { sig, det, out = checkPDF(d, path, sub, mode, api) })
+									if psig != "" {
+										sig, det = psig, pdet
+									}
+									if sig != "" {
+										e.Fail(desc, sig, det, map[string][]byte{"input.pdf": data})
+										continue
+									}
+									e.Pass(desc, true, "gran-"+out)
+								}
+							}
+						}
+					}
+				}
+			}
+		}
+	}
 }
